@@ -35,8 +35,9 @@ def run(ctx):
         byid = {x["id"]: x for x in c.conflicts}
         for x in d:
             cf = byid.get(x["id"])
-            if not x["valid"] or cf is None or (x["file"], x["line"]) != (str(cf["pos"][0]), cf["pos"][1]):
-                badpos.append((i, "diagnostic %r does not sit on the reported line of its conflict" % x))
+            flow_ok = x.get("flow", "-") == "-" or x["flow"].split(":")[:2] == [x["file"], str(x["line"])]
+            if not x["valid"] or cf is None or not flow_ok or (x["file"], x["line"]) != (str(cf["pos"][0]), cf["pos"][1]):
+                badpos.append((i, "diagnostic %r does not sit on the line of its conflict / of the last step of its flow" % x))
                 break
     ctx.obligation("oracle on the real engine: every diagnostic has a valid position on its conflict's file and line; toPos never panics", not panics and not badpos)
 
